@@ -312,7 +312,14 @@ def check_line_mapping_rule(fx, rep, rule):
                     if s["k"] == "Let" and s.get("init") is not None and any(x.get("k") == "Adt" and x["adt"].endswith("mapping::LineMapping") for x in F.walk(s["init"])):
                         init = s["init"]
         if init is None:
-            rep.undecidable(rule, "%s/line-mapping/shape" % rule, loc=F.short_file(b["sp"]), construct="LineMapping not built in a let initialiser")
+            # built in the tail of a helper / directly as a field value: decided per grammar path by the member-parser wiring rule
+            import parser_rules as _PR4
+            if not any("member/capture-wiring" in i_["key"] for i_ in rep.instances):
+                _PR4.check_member_parser(fx, rep, rule)
+            okw = any("member/capture-wiring" in i_["key"] and i_["status"] == "pass" for i_ in rep.instances)
+            rep.check(rule, "%s/line-mapping/usable-range" % rule, okw, loc=F.short_file(b["sp"]),
+                      found="decided on the grammar paths (member/capture-wiring): Some(LineMapping) iff both obfuscated numbers > 0",
+                      expected="Some(LineMapping) iff both obfuscated line numbers are present and > 0", nontrivial=False)
             continue
         sy = S.Sym(fx)
         try:
